@@ -250,6 +250,54 @@ UNI_FORMS = [
     'fn f() -> &\'static str {\n    match kind { Kind::First => "first kind of result text", Kind::Second => "second kind", _ => "other" }\n}\n',
 ]
 
+# forms only the differential needs (against the frozen build any input is fair): constructs whose layout has edition-specific or
+# width-exact rules -- chains through tuple fields / ? / await / indexing, macro calls holding one-line lists, long operands
+EXTRA_FORMS = [
+    "let x = some_long_receiver_name.method_call_number_one(argument_one).another_method_call(argument_two).0.1.yet_another_method_call(argument_three);",
+    "let y = some_long_receiver_name.method_call_number_one(argument_one).field.0.1.2.yet_another_method_call(argument_three).await?.last_field;",
+    "let z = short.0.1.call(); let w = tuple_of_tuples.0 .1 .2; let v = a.0.0.0.0;",
+    "let e = receiver[index_one][index_two].method(argument)?.other_method()?.third_method_in_the_chain(with_an_argument)[0];",
+    "foo!([alpha_value, beta_value, gamma_value, delta_value, epsilon_value, zeta_value, eta_value, theta_value]);",
+    "bar!((first_item, second_item, third_item, fourth_item, fifth_item, sixth_item, seventh_item_of_the_tuple));",
+    "baz!{ key_one: value_one, key_two: value_two, key_three: value_three, key_four: value_four_is_longer }",
+    "vec![first_element_of_vec, second_element_of_vec, third_element_of_vec, fourth_element_of_vec, fifth_one];",
+    "println!(\"{} {} {}\", first_argument_to_print, second_argument_to_print, third_argument_to_print_here);",
+    "assert!(some_condition_function(argument_one, argument_two) && another_condition(argument_three), \"message\");",
+    "let sum = first_operand_of_sum + second_operand_of_sum * third_operand_of_product - fourth_operand / fifth_operand_value;",
+    "let cond = first_condition_holds && second_condition_holds || third_condition_holds && !fourth_condition_holds_too;",
+    "let closure_in_call = some_function_name(first_argument, |closure_parameter| closure_parameter.method().other(), third);",
+    "let st = StructName { field_one: value_one, field_two: value_two, field_three: nested(call), ..Default::default() };",
+    "let arr = [[1, 2, 3], [4, 5, 6], [7, 8, 9], [10, 11, 12], [13, 14, 15], [16, 17, 18], [19, 20, 21], [22, 23, 24]];",
+    "match scrutinee_value { Pattern::One(inner) | Pattern::Two(inner) | Pattern::Three(inner) if guard(inner) => body(inner), _ => other() }",
+    "if let Some(Wrapper { inner_field_name, other_field_name }) = optional_wrapper_value_expression { use_fields(inner_field_name) }",
+    "let typed: HashMap<LongKeyTypeName, Vec<Box<dyn Fn(ArgumentType) -> ResultType + Send + Sync>>> = HashMap::new();",
+    "return Err(ErrorKind::SomethingWentWrong { context: context_value, source: Box::new(underlying_error_value) }.into());",
+    "let s = \"a string literal that is rather long and sits close to the margin of the line\".to_owned() + other;",
+    "for (index_variable, element_variable) in collection_expression.iter().enumerate().filter(|pair| keep(pair)) { body(); }",
+    "let r = unsafe { dangerous_function_call(pointer_argument_one, pointer_argument_two, length_argument_value) };",
+    "let t = (first_tuple_element_value, second_tuple_element_value, third_tuple_element_value, fourth_tuple_value);",
+    "x = if first_condition { value_when_first } else if second_condition { value_when_second } else { value_otherwise };",
+    "let g = generic_function::<FirstTypeArgument, SecondTypeArgument, ThirdTypeArgument>(argument_one, argument_two);",
+    # many SHORT elements: lists longer than the small-heuristics widths that still fit on one line at some exact width
+    "foo!([a, b, c, d, e, f, g, h, i, j, k, l, m, n, o, p, q, r, s, t, u, v, w, x, y, z, aa, bb, cc]);",
+    "foo!((a, b, c, d, e, f, g, h, i, j, k, l, m, n, o, p, q, r, s, t, u, v, w, x, y, z, aa, bb, cc, dd));",
+    "foo!{a, b, c, d, e, f, g, h, i, j, k, l, m, n, o, p, q, r, s, t, u, v, w, x, y, z, aa, bb, cc, dd, ee}",
+    "let arr = [a, b, c, d, e, f, g, h, i, j, k, l, m, n, o, p, q, r, s, t, u, v, w, x, y, z, aa, bb, cc, dd];",
+    "call(a, b, c, d, e, f, g, h, i, j, k, l, m, n, o, p, q, r, s, t, u, v, w, x, y, z, aa, bb, cc, dd, ee, ff);",
+    "outer!(inner!([a, b, c, d, e, f, g, h, i, j, k, l, m, n, o, p, q, r, s, t, u, v, w, x, y, z]), tail);",
+    "let t = (a, b, c, d, e, f, g, h, i, j, k, l, m, n, o, p, q, r, s, t, u, v, w, x, y, z, aa, bb, cc, dd, ee);",
+]
+EXTRA_ITEMS = [
+    "fn long_signature<T: FirstBound + SecondBound, U>(first_parameter: FirstType<T>, second_parameter: &mut U) -> ReturnType<T, U> where U: ThirdBound { body() }",
+    "impl<T: FirstBound + SecondBound + ThirdBound + FourthBound + FifthBound> SomeTraitName<T> for SomeTypeName<T> where T: Sized {}",
+    "pub struct Record { pub first_field: FirstFieldType, pub(crate) second_field: SecondFieldType<Generic>, third: Option<Box<Third>> }",
+    "pub enum Choice { FirstVariant(FirstPayloadType, SecondPayloadType), SecondVariant { named_field: NamedFieldType }, Third = 3 }",
+    "use some_crate::{first_module::{FirstItem, SecondItem}, second_module::ThirdItem, third_module::{self, FourthItem as Renamed}};",
+    "const LOOKUP_TABLE: [(u32, &str); 4] = [(1, \"one\"), (2, \"two\"), (3, \"three\"), (4, \"four_is_longer_than_the_rest\")];",
+    "type Callback<'a, T> = Box<dyn for<'b> Fn(&'b T, &'a mut Context) -> Result<Outcome<T>, CallbackError> + Send + 'a>;",
+    "macro_rules! helper { ($first:expr, $($rest:expr),*) => { combine($first, helper!($($rest),*)) }; ($only:expr) => { $only }; }",
+]
+
 SEL_SNIPPETS = [
     "use foo::{a, x86_128, x86_64, B, CONST};\nuse bar::{self, Z, b9, b10};\n",
     "fn main() {\n    let x = vec![  1,2 ];\n    let Some(value) = some_function_with_a_long_name(argument_number_one) else { return; };\n}\n",
@@ -395,6 +443,13 @@ def run(tier, seed, replay):
                     for ed in EDITIONS:
                         cases.append({"text": text, "config": [["max_width", str(w)], ["style_edition", ed]], "again": False, "lex": False})
                         meta.append(("uniform/%d#%s" % (fi, mode), "base", str(w), ed))
+    if not replay:
+        for fi, form in enumerate(EXTRA_FORMS + EXTRA_ITEMS):
+            text = ("fn wrapper() {\n    %s\n}\n" % form) if fi < len(EXTRA_FORMS) else form + "\n"
+            for w in range(20, 141):           # EVERY width: several layout rules bite only at an exact fit
+                for ed in EDITIONS:
+                    cases.append({"text": text, "config": [["max_width", str(w)], ["style_edition", ed]], "again": False, "lex": False})
+                    meta.append(("extra/%d" % fi, "base", str(w), ed))
     if replay and "input" in rp:
         cases = [{"text": rp["input"], "config": rp["config"], "again": False, "lex": False}]
         meta = [(rp["pool_id"], rp["preset"], rp["width"], rp.get("style_edition", "?"))]
@@ -437,7 +492,7 @@ def run(tier, seed, replay):
     rep.coverage.update({
         "evaluations": len(cases), "distinct_nontrivial": len(nontrivial),
         "judged_against_pinned": n_judged, "old_edition_triples_compared": n_old,
-        "rule": "(a) regenerated theorems: every StyleEdition literal in formatting code is the right operand of an ordering comparison that is constant on {2015,2018,2021}; every option default is shared by them; the order is the declared one. (b) differential: pool x presets %s x max_width %s x style editions %s (thorough: all; quick: the 1/%d slice selected by the seed), plus the synthetic forms stream of C01 (forms x 4 layout presets x widths) under every edition, plus non-ASCII re-spellings of pool programs (string and comment text in 2-byte / double-width letters) and a width drawn from 20..200 per program, plus 14 forms whose layout depends on the measured width of non-ASCII text at every max_width 20..130: the working tree's output must equal the frozen pinned build's for every input the pinned build formats without error, and 2015 = 2018 = 2021 on the working tree. non-trivial = the pinned build changes the text; distinct by (program, preset, width, edition). (c) how the style edition is chosen: the real binaries of the working tree and of the pinned sources are run on %d discriminating snippets under every combination of rustfmt.toml keys (version, edition, style_edition) and command-line flags (--edition, --style-edition, --config version=): same exit status and text" % (list(PRESETS), GRID_W, EDITIONS, MOD, len(SEL_SNIPPETS)),
+        "rule": "(a) regenerated theorems: every StyleEdition literal in formatting code is the right operand of an ordering comparison that is constant on {2015,2018,2021}; every option default is shared by them; the order is the declared one. (b) differential: pool x presets %s x max_width %s x style editions %s (thorough: all; quick: the 1/%d slice selected by the seed), plus the synthetic forms stream of C01 (forms x 4 layout presets x widths) under every edition, plus non-ASCII re-spellings of pool programs (string and comment text in 2-byte / double-width letters) and a width drawn from 20..200 per program, plus 14 forms whose layout depends on the measured width of non-ASCII text at every max_width 20..130, plus 33 further forms (chains through tuple fields / ? / await / indexing, macro calls holding one-line lists, long operands, long signatures ...) at every max_width 20..140: the working tree's output must equal the frozen pinned build's for every input the pinned build formats without error, and 2015 = 2018 = 2021 on the working tree. non-trivial = the pinned build changes the text; distinct by (program, preset, width, edition). (c) how the style edition is chosen: the real binaries of the working tree and of the pinned sources are run on %d discriminating snippets under every combination of rustfmt.toml keys (version, edition, style_edition) and command-line flags (--edition, --style-edition, --config version=): same exit status and text" % (list(PRESETS), GRID_W, EDITIONS, MOD, len(SEL_SNIPPETS)),
         "selection_runs": nsel,
         "samples": [{"pool_id": m[0], "preset": m[1], "width": m[2], "style_edition": m[3]} for m in meta[:4]],
         "programs": len(set(m[0] for m in meta)),
